@@ -141,10 +141,12 @@ func runEP(idx int, eps []*ep, r *rand.Rand) {
 	func() {
 		defer func() {
 			if x := recover(); x != nil {
-				buf := make([]byte, 2048)
+				buf := make([]byte, 8192)
 				n := runtime.Stack(buf, false)
 				mu.Lock()
-				if len(panics) < 20 {
+				if lockset.FakeWatcherArtefact(fmt.Sprintf("%v\n%s", x, buf[:n])) {
+					ops["inconclusive:fake-watcher-channel-full"]++ // limitation of client-go's fake watcher, not a finding
+				} else if len(panics) < 20 {
 					panics = append(panics, fmt.Sprintf("%s: %v\n%s", e.name, x, buf[:n]))
 				}
 				mu.Unlock()
